@@ -6,6 +6,9 @@ sub-expression of the input for which the pass already disagrees and derives the
 key from that sub-expression's skeleton.
 """
 
+import os
+import traceback
+
 import numpy as np
 
 from . import oracle
@@ -81,6 +84,22 @@ def count_verdicts(ctx, vs, prefix=""):
             ctx.covered("inconclusive_reasons", v.why.split(":")[0][:40])
 
 
+INTERNAL_ERRORS = (IndexError, KeyError, AttributeError, TypeError, UnboundLocalError, NameError, AssertionError)
+
+
+def crash_is_judged(e, worlds, side):
+    """The input of a pass that crashed has a value on at least two worlds (so it is a meaningful expression)."""
+    n = 0
+    for w in worlds:
+        try:
+            r = S(e, w, side=side)
+            if np.all(np.isfinite(np.asarray(r.arr, dtype=complex))):
+                n += 1
+        except Exception:
+            pass
+    return n >= 2
+
+
 def check_pass(ctx, prop, passname, e, apply, worlds, localise=True, allow_shape_change=False, side=None,
                desc=None, need_agree=2, extra_key="", key_depth=1, key_override=None):
     """Returns 'held' | 'violated' | 'inconclusive' | 'skipped' | 'rejected'."""
@@ -89,6 +108,15 @@ def check_pass(ctx, prop, passname, e, apply, worlds, localise=True, allow_shape
     except Exception as ex:
         ctx.count("rejected")
         ctx.covered("rejected_with", type(ex).__name__)
+        if isinstance(ex, INTERNAL_ERRORS) and crash_is_judged(e, worlds, side):
+            # a ValueError / NotImplementedError is a refusal; a failed lookup or comparison in the pass's own bookkeeping
+            # on an input that has a value is not: the pass did not produce the expression the property promises
+            tb = traceback.extract_tb(ex.__traceback__)
+            site = next((f"{os.path.basename(fr.filename)}:{fr.name}" for fr in reversed(tb) if "/ufl/" in fr.filename), "?")
+            ctx.violation(f"{prop}/{passname}/raises/{type(ex).__name__}/{site}{extra_key}",
+                          f"{passname} raises {type(ex).__name__}: {str(ex)[:120]} (in {site}) on an input that has a value",
+                          {"input": str(e)[:1500], "desc": desc})
+            return "violated", None
         return "rejected", None
     ctx.count("accepted")
     for c in node_classes(e):
